@@ -735,6 +735,7 @@ CORPUS += [
 CTXF = "rl4co/models/nn/env_embeddings/context.py"
 CORPUS += [
     # ---------------------------------------------------------------- C14
+    V("C14", "op-context-first-item-budget", "rl4co/models/nn/env_embeddings/context.py", 'state_embedding = td["max_length"][..., 0] - td["tour_length"]', 'state_embedding = td["max_length"][(0,) * td["max_length"].dim()] - td["tour_length"]', "C14.a"),
     V("C14", "pdp-context-squeeze-again", CTXF, "class PDPContext(EnvContext):", "class PDPContext(EnvContext):\n    pass\n\n\nclass _Unused(EnvContext):", None),
     V("C14", "svrp-context-squeeze-again", CTXF, '''    def forward(self, embeddings, td):
         cur_node_embedding = self._cur_node_embedding(embeddings, td)
